@@ -346,7 +346,8 @@ func getFixture() (*fixture, error) {
 // ---------------------------------------------------------------- scripted agent
 
 type scriptedAgent struct {
-	c *libdisco.Conn
+	c   *libdisco.Conn
+	tcp *net.TCPConn
 
 	mu     sync.Mutex
 	cond   *sync.Cond
@@ -363,11 +364,12 @@ type scriptedAgent struct {
 
 func dialAgent(f *fixture) (*scriptedAgent, error) {
 	cfg := libdisco.Config{HandshakePattern: libdisco.Noise_NK, RemoteKey: f.pub}
-	c, err := libdisco.DialWithDialer(&net.Dialer{Timeout: 10 * time.Second}, "tcp", f.addr, &cfg)
+	tc, err := net.DialTimeout("tcp", f.addr, 10*time.Second)
 	if err != nil {
 		return nil, err
 	}
-	a := &scriptedAgent{c: c, seg: "frame1"}
+	c := libdisco.Client(tc, &cfg) // the handshake runs with the first write
+	a := &scriptedAgent{c: c, tcp: tc.(*net.TCPConn), seg: "frame1"}
 	a.cond = sync.NewCond(&a.mu)
 	return a, nil
 }
